@@ -15,6 +15,7 @@ import (
 	"github.com/samaritan-proxy/samaritan/verifrt/sched"
 	"github.com/samaritan-proxy/samaritan/verifrt/sim/cluster"
 	"github.com/samaritan-proxy/samaritan/verifrt/sim/resp"
+	vsync "github.com/samaritan-proxy/samaritan/verifrt/vsync"
 )
 
 // ---------------------------------------------------------------------------
@@ -448,7 +449,51 @@ func c13histories(env sched.Env) *sched.Report {
 	return rep
 }
 
+// ---------------------------------------------------------------------------
+// C13 (S): two sessions write compressible values to two different nodes at the same time (two backend
+// write loops share the pooled compressors/buffers), then both read back.
+// bound     P, F, Sel (see Setup); oracle as above
+// ---------------------------------------------------------------------------
+
+func c13concBody() {
+	cl := cluster.New(2, 0, 2)
+	s := vfStartStack(cl, vfSvcConfig(0, c13cps(true, 8), 0))
+	k0, k1 := cl.KeyInGroup("k", 0, 0), cl.KeyInGroup("k", 1, 0)
+	v0, v1 := c13pattern("run", 400), c13pattern("text", 300)
+	c0, c1 := s.NewClient("c0"), s.NewClient("c1")
+	// bring both backend connections up first
+	c0.Do("GET", k0)
+	c1.Do("GET", k1)
+	sched.WaitQuiescent()
+	var r0, r1 resp.Value
+	var wg vsync.WaitGroup
+	wg.Add(2)
+	sched.GoNamed("client0", func() { defer wg.Done(); c0.Do("SET", k0, string(v0)); r0, _ = c0.Do("GET", k0) })
+	sched.GoNamed("client1", func() { defer wg.Done(); c1.Do("HSET", k1, "f", string(v1)); r1, _ = c1.Do("HGET", k1, "f") })
+	wg.Wait()
+	if !resp.Equal(r0, resp.Bulk(v0)) {
+		sched.Fail("read-back-differs / concurrent sessions", fmt.Sprintf("client0 wrote %d bytes, read %s", len(v0), r0))
+	}
+	if !resp.Equal(r1, resp.Bulk(v1)) {
+		sched.Fail("read-back-differs / concurrent sessions", fmt.Sprintf("client1 wrote %d bytes, read %s", len(v1), r1))
+	}
+	if bad := c13stored(v0, cl.Masters()[0].Store().Raw(k0)); bad != "" {
+		sched.Fail(bad+" / concurrent sessions", "node 0")
+	}
+	if bad := c13stored(v1, cl.Masters()[1].Store().RawHash(k1, "f")); bad != "" {
+		sched.Fail(bad+" / concurrent sessions", "node 1")
+	}
+	sched.SetOutcome("ok")
+}
+
 func init() {
+	sched.Register(&sched.Scenario{Name: "C13/concurrent", Setup: func(tier string) (sched.Config, func()) {
+		b := sched.Bounds{P: 1, F: 1, Sel: 0}
+		if tier == "thorough" {
+			b = sched.Bounds{P: 2, F: 1, Sel: 1}
+		}
+		return sched.Config{Bounds: b, Iterative: true}, c13concBody
+	}})
 	sched.Register(&sched.Scenario{Name: "C13/filter", Custom: c13filter, ReplayCustom: func(in json.RawMessage) []sched.Failure {
 		var cs c13fcase
 		json.Unmarshal(in, &cs)
